@@ -203,6 +203,7 @@ class StepUnit(Unit):
         from pyvc.loops import LoopSummarized
 
         cls, fn, is_cm = self._fn()
+        X.ctx.summarise = True  # copies of symbolic-length buffers made on the way to the loop are not looked into
         try:
             if is_cm:
                 X.call(fn, cls, a.data, **self.kwargs)
